@@ -5,9 +5,14 @@ package main
 import (
 	"context"
 	"errors"
+	"flag"
 	"fmt"
 	"io"
 	"math"
+	"net"
+	"os"
+	"path/filepath"
+	"syscall"
 	"net/http"
 	"net/http/httptest"
 	"runtime"
@@ -25,6 +30,9 @@ import (
 //   exp <exporter> <M> <L>                     enumerate every fault the exporter can meet on a store
 //                                              of M metrics x L label sets; OBS bad=0/1
 //   one <exporter> <M> <L> <kind> <mi> <li>    a single fault (replay form); OBS -
+//   stall <unix|tcp> <L> <w>                   Exporter.PushMetrics itself, to a peer that accepts the connection and never
+//                                              reads, with L label sets (more than the socket buffers hold) and a push
+//                                              deadline of 300ms; w=1: a line processor calls GetDatum meanwhile; OBS bad=0/1
 // exporters: prom (Registry.Gather -> Collect), push (writeSocketMetrics), varz, graphite,
 //   json (HandleJSON -> Store.MarshalJSON)
 // fault kinds: nan / inf (json: the datum at that position is a float JSON cannot represent), utf8 (label value not UTF-8), name (metric name not representable),
@@ -264,6 +272,113 @@ func c12One(exp string, M, L int, kind string, mi, li int) (int, int, string) {
 	return locked, leaked, note
 }
 
+
+// c12Stall pushes a store to a peer that has accepted the connection and does not read.  The
+// attempt must be over soon after the push deadline, with no metric left locked; until then a
+// line processor may wait, afterwards it may not.
+func c12Stall(network string, L int, withWriter bool) (bool, string) {
+	dir, err := os.MkdirTemp("", "c12stall")
+	if err != nil {
+		return true, "skip: " + err.Error()
+	}
+	defer os.RemoveAll(dir)
+	var ln net.Listener
+	fl := "collectd_socketpath"
+	switch network {
+	case "unix":
+		ln, err = net.Listen("unix", filepath.Join(dir, "s"))
+	default:
+		fl = "graphite_host_port"
+		lc := net.ListenConfig{Control: func(_, _ string, c syscall.RawConn) error {
+			return c.Control(func(fd uintptr) { _ = syscall.SetsockoptInt(int(fd), syscall.SOL_SOCKET, syscall.SO_RCVBUF, 4096) })
+		}}
+		ln, err = lc.Listen(context.Background(), "tcp", "127.0.0.1:0")
+	}
+	if err != nil {
+		return true, "skip: " + err.Error()
+	}
+	defer ln.Close()
+	held := make(chan net.Conn, 4)
+	go func() {
+		for {
+			c, err := ln.Accept()
+			if err != nil {
+				return
+			}
+			held <- c // kept open, never read
+		}
+	}()
+	defer func() {
+		for {
+			select {
+			case c := <-held:
+				c.Close()
+			default:
+				return
+			}
+		}
+	}()
+	addr := ln.Addr().String()
+	oldDeadline := flag.Lookup("metric_push_write_deadline").Value.String()
+	_ = flag.Set(fl, addr)
+	_ = flag.Set("metric_push_write_deadline", "300ms")
+	defer func() {
+		_ = flag.Set(fl, "")
+		_ = flag.Set("metric_push_write_deadline", oldDeadline)
+	}()
+
+	s := metrics.NewStore()
+	m := metrics.NewMetric("requests", "prog", metrics.Counter, metrics.Int, "k")
+	pad := strings.Repeat("x", 200)
+	for j := 0; j < L; j++ {
+		d, _ := m.GetDatum(fmt.Sprintf("v%d%s", j, pad))
+		datum.SetInt(d, int64(j), time.Unix(1, 0))
+	}
+	_ = s.Add(m)
+	ctx, cancel := context.WithCancel(context.Background())
+	defer cancel()
+	e, err := exporter.New(ctx, s, exporter.Hostname("h"))
+	if err != nil {
+		return false, "exporter.New: " + err.Error()
+	}
+	before := emittersBlocked()
+	done := make(chan struct{})
+	go func() {
+		defer close(done)
+		e.PushMetrics()
+	}()
+	wDone := make(chan time.Duration, 1)
+	if withWriter {
+		go func() {
+			time.Sleep(50 * time.Millisecond)
+			t0 := time.Now()
+			_, _ = m.GetDatum("fresh")
+			wDone <- time.Since(t0)
+		}()
+	}
+	select {
+	case <-done:
+	case <-time.After(4 * time.Second):
+		return false, fmt.Sprintf("PushMetrics to a %s peer that accepted and does not read has not returned 4s after it started (push deadline 300ms, %d label sets)", network, L)
+	}
+	if withWriter {
+		select {
+		case <-wDone:
+		case <-time.After(2 * time.Second):
+			return false, "GetDatum on the pushed metric is still blocked 2s after the push attempt ended"
+		}
+	}
+	if m.TryLock() {
+		m.Unlock()
+	} else {
+		return false, "the pushed metric is still locked after the push attempt ended"
+	}
+	if leaked := emittersBlocked() - before; leaked > 0 {
+		return false, fmt.Sprintf("%d emitter goroutines blocked after the push attempt ended", leaked)
+	}
+	return true, ""
+}
+
 func c12Faults(exp string, M, L int) [][3]string {
 	var out [][3]string
 	add := func(kind string, mi, li int) {
@@ -315,6 +430,22 @@ func c12Faults(exp string, M, L int) [][3]string {
 }
 
 func c12Run(r *runCtx, id string, f []string) {
+	if f[0] == "stall" {
+		L, _ := strconv.Atoi(f[2])
+		ok, note := c12Stall(f[1], L, f[3] == "1")
+		r.stat("stall_" + f[1])
+		r.obs(id, "bad=%d", b2i(!ok))
+		if strings.HasPrefix(note, "skip: ") {
+			r.trivial(id)
+			r.ok(id)
+		} else if !ok {
+			r.replay(id, f...)
+			r.fail(id, "push-stalls", "%s", note)
+		} else {
+			r.ok(id)
+		}
+		return
+	}
 	exp := f[1]
 	M, _ := strconv.Atoi(f[2])
 	L, _ := strconv.Atoi(f[3])
@@ -365,6 +496,14 @@ func init() {
 			maxM, maxL := 3, 4
 			if g.thorough() {
 				maxM, maxL = 4, 6
+			}
+			g.emit("stall", "unix", "4000", "0")
+			g.emit("stall", "unix", "4000", "1")
+			g.emit("stall", "tcp", "40000", "0")
+			g.emit("stall", "tcp", "40000", "1")
+			if g.thorough() {
+				g.emit("stall", "unix", "20000", "1")
+				g.emit("stall", "tcp", "80000", "1")
 			}
 			for _, exp := range []string{"prom", "push", "varz", "graphite", "json"} {
 				for M := 0; M <= maxM; M++ {
